@@ -18,17 +18,17 @@ variable {α : Type} [DecidableEq α] [IntLabel α]
     iteration (`__iter__`, and `IndexLevel.values`, the same loop) yields the tuples in index
     order with fuel = number of nodes; `values_at_depth(dl)` is the column of `dl`-th components;
     `to_type_blocks` has one such column per depth and its rows are the tuples; the length is
-    the number of tuples; membership of a full-depth key ⇔ it is one of the tuples; and
+    the number of tuples; membership (`__contains__` with its depth check) ⇔ being one of the tuples, for every key; and
     `leaf_loc_to_iloc` is the inverse of positional access. -/
 theorem views_agree {t : Level α} {d : Nat} (h : Level.WF d t) :
     t.iter = some t.tuples ∧
     (∀ dl, dl < d → ∃ c, t.valuesAtDepth d dl = .ok c ∧ c.map some = t.tuples.map (·[dl]?)) ∧
     (∃ cols, t.toTypeBlocks d = .ok cols ∧ cols.length = d ∧ HState.rowsOf t.tuples.length cols = t.tuples) ∧
     t.len = t.tuples.length ∧
-    (∀ key, key.length = d → (t.contains key = true ↔ key ∈ t.tuples)) ∧
+    (∀ key, t.containsKey d key = true ↔ key ∈ t.tuples) ∧
     (∀ key i, t.leafLocToIloc key = .ok i ↔ t.tuples[i]? = some key) := by
   refine ⟨Level.iter_eq_tuples h, fun dl hdl => Level.valuesAtDepth_spec h hdl, ?_,
-    (Level.tuples_length t d h).symm, Level.contains_spec t d h, ?_⟩
+    (Level.tuples_length t d h).symm, Level.containsKey_spec h, ?_⟩
   · obtain ⟨cols, h1, h2, h3⟩ := Level.toTypeBlocks_spec h
     exact ⟨cols, h1, h2, HState.rowsOf_spec h2 (Level.tuples_depth t d h) h3⟩
   · intro key i
@@ -38,11 +38,12 @@ theorem views_agree {t : Level α} {d : Nat} (h : Level.WF d t) :
     · rintro ⟨j, hj, ht⟩; simp only [Nat.zero_add] at hj; subst hj; exact ht
     · intro ht; exact ⟨i, by simp, ht⟩
 
-/-- `IndexLevel.__contains__` AS CODED answers `True` for an over-long key whose prefix is held
-    (the loop returns at the leaf whatever remains of the key): membership is exact only for
-    full-depth keys. -/
-theorem contains_overlong_counterexample :
-    (Level.node [0, 1] [.leaf [1] 0, .leaf [1] 1] 0 : Level Int).contains [0, 1, 7] = true := by decide
+/-- PINNED-TREE BEHAVIOUR (finding F42, repaired in /repo commit 88fd864): the descent of
+    `IndexLevel.__contains__` alone answers `True` for an over-long key whose prefix is held; the
+    repaired method checks the key length first (`containsKey`). -/
+theorem containsPinned_overlong_counterexample :
+    (Level.node [0, 1] [.leaf [1] 0, .leaf [1] 1] 0 : Level Int).contains [0, 1, 7] = true ∧
+    (Level.node [0, 1] [.leaf [1] 0, .leaf [1] 1] 0 : Level Int).containsKey 2 [0, 1, 7] = false := by decide
 
 /-- For EVERY history of append / extend / read calls on an IndexHierarchyGO whose state is
     coherent (well-formed tree; blocks either flagged stale or equal to `to_type_blocks` of the
@@ -97,6 +98,21 @@ theorem hloc_full_tuple {t : Level α} {d : Nat} (h : Level.WF d t) (ho : t.offs
     (t.locToIloc (labs.map .label) = .error .lookup ∧ labs ∉ t.tuples) ∨
     ∃ p : Nat, t.locToIloc (labs.map .label) = .ok (.int p) ∧ t.tuples[p]? = some labs :=
   Level.locToIloc_full_tuple h ho labs hl
+
+/-- The repaired bound of commit 79a552f (finding F46): at a leaf (an offset is applied) a half-open
+    label slice stays inside the leaf — `a:` ends at `offset + len(leaf)`, `:a` starts at `offset`;
+    both are stop-inclusive. -/
+theorem leaf_open_slice_bounded {ls : List α} (hn : ls.Nodup) {i : Nat} {a : α} (hi : ls[i]? = some a)
+    (off : Nat) :
+    (Level.nodeIndex ls).locToIlocP (.slice (some a) none none) (some off) true
+      = .ok (.slice ⟨some ((i : Int) + off), some ((off : Int) + ls.length), none⟩) ∧
+    (Level.nodeIndex ls).locToIlocP (.slice none (some a) none) (some off) true
+      = .ok (.slice ⟨some (off : Int), some ((i : Int) + off + 1), none⟩) := by
+  have hg := AMap.get?_zipIdx_some 0 hn hi
+  simp only [Nat.add_zero] at hg
+  constructor <;>
+    simp [Level.nodeIndex, Index.locToIlocP, Index.locMap, Index.mapSliceArgs, Index.mapSliceArg, hg,
+      Index.boundSlice, Index.len]
 
 /-! ### non-vacuity -/
 
